@@ -509,10 +509,12 @@ fn check_obs(t: &TaffyTree<u32>, f: &RefForest, ids: &[NodeId]) -> Option<String
                 Err(e) => return Some(format!("children(#{a}) = Err({e:?})")),
             };
             if got != want {
-                let name = |v: &Vec<NodeId>| -> Vec<String> {
-                    v.iter().map(|x| ids.iter().rposition(|y| y == x).map(|i| format!("#{i}")).unwrap_or(format!("{:#x}", raw(*x)))).collect()
+                let name = |v: &Vec<NodeId>| -> String {
+                    let names: Vec<String> =
+                        v.iter().map(|x| ids.iter().rposition(|y| y == x).map(|i| format!("#{i}")).unwrap_or(format!("{:#x}", raw(*x)))).collect();
+                    format!("[{}]", names.join(", "))
                 };
-                return Some(format!("children(#{a}) = {:?}, expected {:?}", name(&got), name(&want)));
+                return Some(format!("children(#{a}) = {}, expected {}", name(&got), name(&want)));
             }
             if t.child_count(n) != want.len() {
                 return Some(format!("child_count(#{a}) = {}, expected {}", t.child_count(n), want.len()));
@@ -528,11 +530,12 @@ fn check_obs(t: &TaffyTree<u32>, f: &RefForest, ids: &[NodeId]) -> Option<String
             }
             let wp = f.parent(a).map(|p| ids[p]);
             if t.parent(n) != wp {
-                return Some(format!(
-                    "parent(#{a}) = {:?}, expected {:?}",
-                    t.parent(n).map(|x| ids.iter().rposition(|y| *y == x)),
-                    f.parent(a)
-                ));
+                let show = |p: Option<usize>| p.map(|i| format!("#{i}")).unwrap_or("None".to_string());
+                let got = match t.parent(n) {
+                    Some(x) => ids.iter().rposition(|y| *y == x).map(|i| format!("#{i}")).unwrap_or(format!("{:#x}", raw(x))),
+                    None => "None".to_string(),
+                };
+                return Some(format!("parent(#{a}) = {}, expected {}", got, show(f.parent(a))));
             }
             if t.get_node_context(n).copied() != f.ctx[a] {
                 return Some(format!("get_node_context(#{a}) = {:?}, expected {:?}", t.get_node_context(n), f.ctx[a]));
